@@ -52,7 +52,7 @@ func (eng) Cases(seed uint64, tier string) []core.CaseDesc {
 	for i := 0; i < n; i++ {
 		cs = append(cs, core.CaseDesc{ID: fmt.Sprintf("fault/%05d", i), Kind: "fault", Seed: seed*1000003 + uint64(i)})
 	}
-	for i := 0; i < 4; i++ {
+	for i := 0; i < 6; i++ {
 		cs = append(cs, core.CaseDesc{ID: fmt.Sprintf("directed/%02d", i), Kind: "directed", Seed: uint64(i)})
 	}
 	return cs
@@ -117,12 +117,20 @@ type runOut struct {
 	targetTxs []*rec.TxRec
 	faultSeq  int // seq of the faulted handler call in the log
 	fired     bool
+	vetoP     *atomic.Bool
+	spurious  atomic.Bool
 }
 
 // runOne executes pre + target with an optional fault.
 func runOne(s setup, f *faultSpec) *runOut {
 	out := &runOut{hl: &rec.HLog{}}
-	mc, _ := seq.New(s.spec, seq.MachOpts{HandlerTimeout: 25 * time.Millisecond})
+	// panics must never race a handler timeout (loaded machine): no timeout for
+	// them; stalls use a timeout that fault-free handlers do not reach
+	hto := 60 * time.Second
+	if f != nil && (f.Kind == "timeout" || f.Kind == "deadline") {
+		hto = 150 * time.Millisecond
+	}
+	mc, _ := seq.New(s.spec, seq.MachOpts{HandlerTimeout: hto})
 	m := mc.M
 	out.m, out.tr = m, mc.Tr
 	out.names = m.StateNames()
@@ -133,6 +141,7 @@ func runOne(s setup, f *faultSpec) *runOut {
 		m.HandlerDeadline = 20 * time.Second
 	}
 	var armed atomic.Bool
+	out.vetoP = &atomic.Bool{}
 	occ := map[string]int{}
 	var omx sync.Mutex
 	release := make(chan struct{})
@@ -142,6 +151,9 @@ func runOne(s setup, f *faultSpec) *runOut {
 	shots := 0
 	decide := func(b int) rec.Decide {
 		return func(c *rec.HCall, e *am.Event) bool {
+			if c.Name == "PEnter" && out.vetoP.Load() {
+				return false
+			}
 			if !armed.Load() || f == nil {
 				return true
 			}
@@ -197,9 +209,15 @@ func runOne(s setup, f *faultSpec) *runOut {
 				emx.Lock()
 				out.errSeen = append(out.errSeen, err)
 				emx.Unlock()
-				if f != nil && f.Kind == "timeout" && errors.Is(err, am.ErrHandlerTimeout) {
-					// logical hand-shake: the machine has seen the timeout
-					doRelease()
+				if f != nil && errors.Is(err, am.ErrHandlerTimeout) {
+					if !strings.Contains(err.Error(), ": "+f.At.Name+" from ") {
+						// another, fault-free handler hit the timeout (loaded
+						// machine): the run says nothing about the fault
+						out.spurious.Store(true)
+					} else if f.Kind == "timeout" {
+						// logical hand-shake: the machine has seen the timeout
+						doRelease()
+					}
 				}
 			case <-stopErr:
 				return
@@ -293,6 +311,10 @@ func judge(res *core.CaseResult, s setup, f faultSpec, base *runOut) {
 		res.Count("fault_not_reached", 1)
 		return
 	}
+	if o.spurious.Load() {
+		res.Count("runs_discarded_spurious_timeout", 1)
+		return
+	}
 	kindNeg := rec.IsNegotiation(f.At.Name)
 	phase := "final"
 	if kindNeg {
@@ -373,22 +395,41 @@ func judge(res *core.CaseResult, s setup, f faultSpec, base *runOut) {
 		}
 	}
 	probeDone := make(chan am.Result, 1)
+	var veto2 am.Result
 	before := o.hl.Len()
 	go func() {
 		m.Remove1(am.StateException, nil)
-		probeDone <- m.Add1("P", am.A{"probe": 1})
+		pr := m.Add1("P", am.A{"probe": 1})
+		// second probe: a negotiation veto must still be honoured (a stale
+		// result left behind by an abandoned handler loop would override it)
+		m.Remove1("P", nil)
+		o.vetoP.Store(true)
+		veto2 = m.Add1("P", am.A{"probe": 2})
+		o.vetoP.Store(false)
+		probeDone <- pr
 	}()
 	select {
 	case pr := <-probeDone:
+		if veto2 != am.Canceled || m.Is1("P") {
+			res.Violate("C08/probe-veto-ignored/"+f.Kind+"/"+cls, fmt.Sprintf(
+				"after the fault a vetoing PEnter was ignored: Add1(P) returned %s, P active=%v", rec.ResStr(veto2), m.Is1("P")), ctx())
+		}
+m.Remove1("P", nil)
+		// the probes are fault-free: they must not raise a new Exception (an
+		// abandoned handler loop stealing calls shows up as handler timeouts)
+		if m.IsErr() {
+			res.Violate("C08/probe-raised-exception/"+f.Kind+"/"+cls, fmt.Sprintf(
+				"fault-free probe mutations after the fault left the machine in Exception again: %v", m.Err()), ctx())
+		}
 		ran := false
 		for _, c := range o.hl.Snapshot()[before:] {
 			if c.Name == "PState" {
 				ran = true
 			}
 		}
-		if pr != am.Executed || !m.Is1("P") || !ran {
+		if pr != am.Executed || !ran {
 			res.Violate("C08/probe-failed/"+f.Kind+"/"+cls, fmt.Sprintf(
-				"after the fault Add1(P) returned %s, P active=%v, PState ran=%v", rec.ResStr(pr), m.Is1("P"), ran), ctx())
+				"after the fault Add1(P) returned %s, PState ran=%v", rec.ResStr(pr), ran), ctx())
 		}
 	case <-time.After(20 * time.Second):
 		buf := make([]byte, 4<<20)
